@@ -46,7 +46,7 @@ TIES = {
     "C17": {"area": "Arch", "refine": "CodeRefine", "cands": "CodeCands",
             "functions": ["ziputil.inDir", "dock.inDir"]},
     "C18": {"area": "Obj", "refine": "CodeRefine", "cands": "CodeCands",
-            "functions": ["objects.isValidKey"]},
+            "functions": ["objects.isValidKey", "hashutil.CheckReader.Read"]},
     "C20": {"area": "Aries", "refine": "CodeRefine", "cands": "CodeCands",
             "functions": ["aries.route.size", "aries.route.relRoute", "aries.C.ShiftRoute"]},
 }
